@@ -97,6 +97,9 @@ CouponHashSet<A>* CouponHashSet<A>::newSet(const void* bytes, size_t len, const 
     throw std::invalid_argument("Attempt to deserialize invalid CouponHashSet with lgArrInts > lgConfigK - 3. Found: "
                                 + std::to_string(lgArrInts));
   }
+  if (couponCount > (1u << lgArrInts)) {
+    throw std::invalid_argument("Possible corruption: " + std::to_string(couponCount) + " coupons in a table of 2^" + std::to_string(lgArrInts));
+  }
   // Don't set couponCount in sketch here;
   // we'll set later if updatable, and increment with updates if compact
   const uint32_t couponsInArray = (compactFlag ? couponCount : (1 << lgArrInts));
@@ -165,6 +168,9 @@ CouponHashSet<A>* CouponHashSet<A>::newSet(std::istream& is, const A& allocator)
   if (lgArrInts > lgK - 3) { // a set grows up to 2^(lgConfigK - 3) coupons and is then promoted to HLL
     throw std::invalid_argument("Attempt to deserialize invalid CouponHashSet with lgArrInts > lgConfigK - 3. Found: "
                                 + std::to_string(lgArrInts));
+  }
+  if (couponCount > (1u << lgArrInts)) {
+    throw std::invalid_argument("Possible corruption: " + std::to_string(couponCount) + " coupons in a table of 2^" + std::to_string(lgArrInts));
   }
 
   ChsAlloc chsa(allocator);
